@@ -704,11 +704,14 @@ impl Check for C09 {
         {
             let ops = vec![card_op(), card_op()];
             let pts = dry_points(&ops, 1);
-            fams.push(Family::new("silence_in_card_reading_with_timeout_extremes", (pts as u64 - 12) * 4 * 2, true, move |i, _| {
+            // (the calls' emission points start behind Feig::new's twelve - if the client under test does its
+            // configuration there at all)
+            let first: u16 = if pts > 12 { 13 } else { 1 };
+            fams.push(Family::new("silence_in_card_reading_with_timeout_extremes", (pts as u64 + 1 - first as u64) * 4 * 2, true, move |i, _| {
                 let mut p = ClientPlan::plain(ops.clone());
                 p.cfg.read_card_timeout = [0u8, 1, 254, 255][(i % 4) as usize];
                 let kind = if (i / 4) % 2 == 0 { FaultKind::Silence } else { FaultKind::StallMid(2) };
-                p.faults = vec![FaultSpec { conn: 0, point: 13 + (i / 8) as u16, kind }];
+                p.faults = vec![FaultSpec { conn: 0, point: first + (i / 8) as u16, kind }];
                 p.label = "single/silence_tau".into();
                 p
             }));
